@@ -172,9 +172,12 @@ def replay_population(col, item):
         tree.remove()
 
 
-def styles_for(case):
+def styles_for(case, emb_name=None):
+    import datetime as _dt
     durs = {f[2] - f[1] for f in case["F"]}
     st = ["fullend"]
+    if emb_name is not None and max(durs) * EMBEDDINGS[emb_name].unit < _dt.timedelta(days=1):
+        st.append("partialend")
     if len(durs) == 1:
         st.append("uniform")
     if {f[3] for f in case["F"]} == {1}:
@@ -354,13 +357,12 @@ def run(ctx):
            ("hour15m", "Y/M/D"), ("leapday6h", "Y/M/D/tag"), ("hour15m", "Y/M/D/tag")]
     items = []
     for n, c in enumerate(cases):
-        sts = styles_for(c)
         if quick:
             emb_name, layout = six[n % len(six)]
-            items.append((c, emb_name, layout, pick_style(sts, layout, n), {}))
+            items.append((c, emb_name, layout, pick_style(styles_for(c, emb_name), layout, n), {}))
         else:
             for k, (emb_name, layout) in enumerate(six):
-                items.append((c, emb_name, layout, pick_style(sts, layout, n + k), {"contains": k % 3 == 0}))
+                items.append((c, emb_name, layout, pick_style(styles_for(c, emb_name), layout, n + k), {"contains": k % 3 == 0}))
     pmap(ctx, replay_population, items)
     ctx.traces += len(items)
     ctx.sample({"population": cases[-1]["F"], "first_queries_with_oracle": cases[-1]["qs"][:3],
